@@ -267,7 +267,7 @@ def run_case_guarded(prop, case):
 
 def _wchunk(chunk):
     import gc
-    agg = new_agg()
+    agg = new_agg(_W['prop'].ID if 'prop' in _W else None)
     if 'init_error' in _W:
         agg['harness'].append({'case': None, 'trace': 'worker initialisation failed:\n' + _W['init_error']})
         return agg
@@ -288,10 +288,27 @@ def _wchunk(chunk):
     return agg
 
 
-def new_agg():
+def new_agg(pid=None):
     return {'n': 0, 'trans': 0, 'states': set(), 'nt': set(), 'outs': set(),
             'outcomes': collections.Counter(), 'viol': {}, 'nviol': 0,
-            'first': {}, 'last': None, 'harness': []}
+            'first': {}, 'last': None, 'harness': [], 'pid': pid}
+
+
+_KNOWN = {}
+
+
+def known_id(pid, v):
+    """id of the open known finding that lists violation v, or None (classified where the violation is
+    folded, so that any number of listed scopes needs no memory and can never crowd out an unlisted one)"""
+    if pid is None:
+        return None
+    from . import report
+    if pid not in _KNOWN:
+        _KNOWN[pid] = [e for e in report.load_known(pid) if e.get('status', 'open') == 'open']
+    for e in _KNOWN[pid]:
+        if report._match_one(e, v):
+            return e['id']
+    return None
 
 
 def fold(agg, cid, case, r):
@@ -317,14 +334,20 @@ def fold(agg, cid, case, r):
         agg['nviol'] += 1
         s = signature(v)
         e = agg['viol'].get(s)
+        kid = known_id(agg.get('pid'), v)
+        # all scopes listed by one known finding share one slot; unlisted scopes are kept apart
+        sk = ('known:' + kid) if kid else scope_key(v)
         if e is None:
-            agg['viol'][s] = {'count': 1, 'cid': cid, 'case': case, 'v': v,
-                              'scopes': {scope_key(v): (cid, case, v)}}
+            e = agg['viol'][s] = {'count': 1, 'cid': cid, 'case': case, 'v': v,
+                                  'scopes': {sk: (cid, case, v)}, 'known_counts': {}}
+            if kid:
+                e['known_counts'][kid] = 1
         else:
             e['count'] += 1
+            if kid:
+                e['known_counts'][kid] = e['known_counts'].get(kid, 0) + 1
             if cid < e['cid']:
                 e['cid'], e['case'], e['v'] = cid, case, v
-            sk = scope_key(v)
             if sk not in e['scopes']:
                 if len(e['scopes']) < 400:
                     e['scopes'][sk] = (cid, case, v)
@@ -358,6 +381,8 @@ def merge(a, b):
             a['viol'][s] = e
         else:
             ae['count'] += e['count']
+            for kid, n_ in e.get('known_counts', {}).items():
+                ae.setdefault('known_counts', {})[kid] = ae.setdefault('known_counts', {}).get(kid, 0) + n_
             if e.get('overflow'):
                 ae['overflow'] = True
             if e['cid'] < ae['cid']:
@@ -386,7 +411,7 @@ def explore(modname, tier, seed):
     nchunks = max(1, min(ng, NWORKERS * 12))
     chunks = [groups[i::nchunks] for i in range(nchunks)]
     random.Random(seed).shuffle(chunks)   # dispatch order only
-    agg = new_agg()
+    agg = new_agg(prop.ID)
     agg['ngroups'] = ng
     if NWORKERS <= 1 or ng == 1:
         _winit(modname, tier)
